@@ -156,6 +156,14 @@ Theorem C18_memory_safe : forall kl gt F GF cs call,
         /\ snd (cpp_step cfg_fixed F (cw cs) x) <> UB).
 Proof. exact memory_safe. Qed.
 
+(* NULL arguments: a NULL pointer among those the leading check tests is refused before anything is touched (state
+   unchanged, failure value returned); which pointers are tested is C18_tree_null_checked *)
+Theorem C18_null_refused : forall c F GF cs call p,
+  dead cs = false -> inb p (c_nulls call) = true -> inb p (g_checked (glue_of wrappers (fname (c_args call)))) = true ->
+  c_call wrappers c F GF cs call = (cs, ret_of (g_check_ret (glue_of wrappers (fname (c_args call)))))
+  /\ ret_of (g_check_ret (glue_of wrappers (fname (c_args call)))) <> Crashed.
+Proof. exact null_refused_tree. Qed.
+
 Theorem C18_run_safe : forall kl gt F GF calls cs, glue_ok gt = true -> forallb (table_checked gt) all_shapes = true ->
   cinv kl cs -> dead cs = false ->
   valid_sequence gt cfg_fixed F GF cs calls = true -> Forall (wf_call kl) calls -> pre_sequence gt cfg_fixed F GF cs calls = true ->
@@ -299,6 +307,13 @@ Proof. vm_compute. repeat split; reflexivity. Qed.
 Theorem C18_refuted_table_checked : forallb (table_checked (orig_over wrappers)) all_shapes = false.
 Proof. vm_compute. reflexivity. Qed.
 
+Example C18_null_refused_nonvacuous :
+  let cs := fst (run0 wrappers [call 0 (ARead ex_file)]) in
+  let c := {| c_h := 0; c_nulls := ["path"]; c_args := ARead ex_file |} in
+  dead cs = false /\ live cs 0 = true /\ inb "path" (c_nulls c) = true /\ inb "path" (g_checked (glue_of wrappers (fname (c_args c)))) = true
+  /\ snd (c_call wrappers cfg_fixed no_fault no_fault cs c) = RInt 1.
+Proof. vm_compute. repeat split; reflexivity. Qed.
+
 Print Assumptions C18_tree_glue_ok.
 Print Assumptions C18_tree_null_checked.
 Print Assumptions C18_tree_forwarding.
@@ -315,6 +330,7 @@ Print Assumptions C18_balanced_interleaved.
 Print Assumptions C18_balanced_tree.
 Print Assumptions C18_memory_safe.
 Print Assumptions C18_run_safe.
+Print Assumptions C18_null_refused.
 Print Assumptions C18_faithful_compound.
 Print Assumptions C18_wf_needed.
 Print Assumptions C18_doc_pre_needed.
